@@ -75,11 +75,21 @@ def gen_model(rng, max_classes=4):
                         "super": rng.choice(["Ljava/lang/Object;", "Ljava/lang/Object;", "Lext/Base;"] + names + [None]),
                         "interfaces": rng.sample(["Ljava/lang/Runnable;", "Lext/I1;", "Lext/I2;"], rng.choice((0, 0, 1, 2))),
                         "source": rng.choice((None, "C.java", "a b.kt")), "fields": fields, "methods": methods})
-    return {"classes": classes}
+    m = {"classes": classes}
+    if rng.random() < 0.3:                 # the string data written in another order than the string ids
+        m["string_data_order"] = rng.choice(("reverse", rng.randrange(1, 10**6)))
+    return m
 
 
 def build(model, **kw):
     from tools.writers.dexwriter import DexBuilder, Code, Try
+    order = model.get("string_data_order")
+    if isinstance(order, int):
+        import random
+        seed = order
+        order = lambda n: random.Random(seed).sample(range(n), n)
+    if order is not None and "string_data_order" not in kw:
+        kw = dict(kw, string_data_order=order)
     b = DexBuilder(**kw)
     for c in model["classes"]:
         k = b.add_class(c["name"], access=c["access"], superclass=c["super"], interfaces=c["interfaces"], source_file=c["source"])
